@@ -55,3 +55,20 @@ pub fn align32(v: i64) -> i64 {
 pub fn pack_tail(term_id: i32, offset: i32) -> i64 {
     ((term_id as i64) << 32) | (offset as u32 as i64)
 }
+
+/// Result unwrapping without pulling `Debug` formatting of the error type into the model.
+#[macro_export]
+macro_rules! vok {
+    ($e:expr, $msg:literal) => {
+        match $e {
+            Ok(v) => v,
+            Err(e) => {
+                std::mem::forget(e);
+                assert!(false, $msg);
+                kani::assume(false);
+                loop {}
+            }
+        }
+    };
+}
+pub use vok;
